@@ -129,13 +129,27 @@ func runC05(e *Engine, r *Report, tier string) {
 			}
 			val := so.Instr.Common().Args[len(so.Instr.Common().Args)-1]
 			var base ssa.Value
-			e.Slice(val, SliceOpts{MaxDepth: 6}, func(x ssa.Value) Verdict {
-				if b, c, ok := plusConst(x); ok && c == 1 {
-					base = b
-					return Accept
+			// the encoded value itself, or what an encoder wrote into the buffer that is stored (PutUint64(buf, x+1))
+			cands := []ssa.Value{val}
+			if refs := stripConv(val).Referrers(); refs != nil {
+				for _, ref := range *refs {
+					if c, ok := ref.(ssa.CallInstruction); ok && strings.HasPrefix(callName(c), "PutUint") && Dominates(c, so.Instr) {
+						as := c.Common().Args
+						if len(as) >= 2 && stripConv(as[len(as)-2]) == stripConv(val) {
+							cands = append(cands, as[len(as)-1])
+						}
+					}
 				}
-				return Continue
-			})
+			}
+			for _, cand := range cands {
+				e.Slice(cand, SliceOpts{MaxDepth: 6}, func(x ssa.Value) Verdict {
+					if b, c, ok := plusConst(x); ok && c == 1 {
+						base = b
+						return Accept
+					}
+					return Continue
+				})
+			}
 			if base == nil {
 				why = "stored value is not <old>+1"
 				continue
